@@ -4,7 +4,7 @@ CONSTANTS
   Bases = {"u8", "i8", "u16", "i16", "u32", "i32", "u64", "i64", "u128", "i128"}
   MaxVars = 2
   Markers = {0, 1, 2, 9}
-  Ptrs = {8}
+  Ptrs = {4, 8}
 INVARIANTS Replay
 CHECK_DEADLOCK FALSE
 VIEW View
